@@ -393,6 +393,10 @@ class ArgumentParser:
                 ):
                     default_value = kwargs.pop("default")
                     flag_name = option["flags"][0]
+                    # Copy, so that actions extending the list do not
+                    # modify the compiler definition shared by all commands.
+                    if isinstance(default_value, list):
+                        default_value = default_value.copy()
                     namespace._passes[flag_name] = default_value
             parser.add_argument(*option["flags"], **kwargs)
 
